@@ -885,6 +885,31 @@ def _laws_gdist(ctx, mc, g, case, own, inside, outside):
             ctx.transitions += 1
             require(close(w2, e2[a:b, None:b]), P + ".gdist2p:window", f"rst,rsp,cst,csp={a},{b},None,{b}")
         box_e1, box_e2 = e1, e2
+        # query sets that mix mapped chromosomes with a chromosome ABSENT from the map: the absent markers have no
+        # position (NaN), but "infinite between chromosomes" / "one half" still holds for every pair of markers on
+        # DIFFERENT chromosomes; within the absent chromosome the distance is unknown (NaN accepted, diagonal too)
+        mixed = sorted(qs + [(mc.absent, 4), (mc.absent, 9)])
+        mc_, mx_ = _q(mixed)
+        ml = mc_.tolist()
+        mg = g.interp_genpos(mc_, mx_)
+        M2 = g.gdist2p(mc_, mx_)
+        M2g = g.gdist2g(mc_, mg)
+        M1 = g.gdist1p(mc_, mx_)
+        ctx.transitions += 4
+        ctx.evaluations += 3
+        for i in range(len(ml)):
+            if i == 0 or ml[i] != ml[i - 1]:
+                require(M1[i] == math.inf, P + ".gdist1p:chromosome-start", f"query with absent chromosome {mc.absent}: first marker of chromosome {ml[i]} has distance {M1[i]!r}")
+            for j in range(len(ml)):
+                for nm, M in (("gdist2p", M2), ("gdist2g", M2g)):
+                    if ml[i] != ml[j]:
+                        require(M[i, j] == math.inf, f"{P}.{nm}:across-chromosomes",
+                                f"markers on chromosomes {ml[i]} and {ml[j]} (chromosome {mc.absent} is absent from the map, its positions are missing): distance {M[i, j]!r}, expected inf")
+                    elif ml[i] != mc.absent:
+                        require(close(M[i, j], abs(mg[i] - mg[j])), f"{P}.{nm}:value", f"markers {i},{j} on chromosome {ml[i]}: {M[i, j]!r}")
+                    else:
+                        require(M[i, j] != M[i, j] or M[i, j] >= 0, f"{P}.{nm}:value", f"absent chromosome: {M[i, j]!r}")
+        ctx.flag("gdist2p:absent-x-other-chromosome")
         # recombination probabilities of both map functions through the map
         for name in FNS:
             fn = _cls(name)()
@@ -901,6 +926,16 @@ def _laws_gdist(ctx, mc, g, case, own, inside, outside):
             require(close(r2, ref2), FP + ".rprob2g:value", lambda: f"{r2.tolist()} expected {ref2}")
             require(close(p1, [R.mapfn_nan(name, v) for v in box_e1.tolist()]), FP + ".rprob1p:value", lambda: f"{p1.tolist()}")
             require(close(p2, [[R.mapfn_nan(name, v) for v in row] for row in box_e2.tolist()]), FP + ".rprob2p:value", lambda: f"{p2.tolist()}")
+            m2 = fn.rprob2p(g, mc_, mx_)
+            m1 = fn.rprob1p(g, mc_, mx_)
+            ctx.transitions += 2
+            for i in range(len(ml)):
+                if i == 0 or ml[i] != ml[i - 1]:
+                    require(m1[i] == 0.5, FP + ".rprob1p:chromosome-start", f"query with an absent chromosome: first marker of chromosome {ml[i]} has {m1[i]!r}")
+                for j in range(len(ml)):
+                    if ml[i] != ml[j]:
+                        require(m2[i, j] == 0.5, FP + ".rprob2p:across-chromosomes",
+                                f"markers on chromosomes {ml[i]} and {ml[j]} ({mc.absent} absent from the map): recombination probability {m2[i, j]!r}, expected 0.5")
             ctx.flag(f"rprob:{name}")
     ok &= _law(ctx, gp, case, P + ".gdist_p:")
 
@@ -1265,7 +1300,7 @@ def finalize(ctx, tier, seed):
         assert ctx.counters.get(f"row-orders:{n}-markers", 0) > 0, n
     for f in ("nchrom:1", "nchrom:2", "nchrom:3", "congruent", "non-congruent", "midpoints", "tied-genetic-positions",
               "q:absent", "q:knot", "q:inside", "q:below", "q:above", "order-preserving-checked",
-              "gdist2g:across", "gdist2g:additive-triple", "interp_gmap:own-reversed", "interp_gmap:dense", "interp_gmap:first-two",
+              "gdist2g:across", "gdist2g:additive-triple", "gdist2p:absent-x-other-chromosome", "interp_gmap:own-reversed", "interp_gmap:dense", "interp_gmap:first-two",
               "interp_gmap:all-unsorted", "edit:remove", "edit:select", "chromset:remove", "chromset:select", "chromset:interp_gmap",
               "nonmutating:auto", "nonmutating:cM", "xoprob:start", "xoprob:zero-distance", "xoprob:positive", "xoprob:missing"):
         assert f in ctx.flags, f
